@@ -87,8 +87,10 @@ Init ==
   /\ fpc = "idle" /\ ftry = 0 /\ qn = fc.preload /\ fst = "open" /\ fcls = FALSE /\ fres = "none" /\ fdone = FALSE
   /\ fsess = "up"
   /\ apc = "idle" /\ backlog = 0 /\ asess = "up" /\ ares = "none" /\ nnew = 0
-  /\ spc = "idle" /\ sres = "none" /\ mine = "none" /\ ahead = SPre /\ behind = 0 /\ lp = "idle" /\ cur = "none"
-  /\ wblk = FALSE /\ ssess = "up" /\ stm = "off" /\ kpc = "idle"
+  \* send: the regime of interest - the peer has stopped reading the socket, the send loop is inside a blocked write of
+  \* a foreign entry (the `writing` flag is held) and SPre more foreign entries wait in sendCh
+  /\ spc = "idle" /\ sres = "none" /\ mine = "none" /\ ahead = SPre /\ behind = 0 /\ lp = "writing" /\ cur = "other"
+  /\ wblk = TRUE /\ ssess = "up" /\ stm = "off" /\ kpc = "idle"
 
 Tick == /\ now < MaxT /\ now' = now + 1
 NotR == mode = "read" /\ UNCHANGED <<cvars, fvars, avars, svars>>
@@ -290,14 +292,13 @@ SK2 == UNCHANGED <<now, spc, sres, mine, ahead, lp, cur, stm>> /\ NotS
 KStart == /\ kpc = "idle" /\ lp = "writing" /\ kpc' = "send" /\ UNCHANGED <<behind, wblk, ssess>> /\ SK2
 KSend == /\ kpc = "send" /\ QLen < SCap /\ behind' = behind + 1 /\ kpc' = "done" /\ UNCHANGED <<wblk, ssess>> /\ SK2
 \* environment
-SBlock == /\ ~wblk /\ ssess = "up" /\ wblk' = TRUE          \* the peer stops reading the socket, its buffer is full
-          /\ UNCHANGED <<behind, ssess, kpc>> /\ SK2
-SUnblock == /\ wblk /\ wblk' = FALSE /\ UNCHANGED <<behind, ssess, kpc>> /\ SK2
+SUnblock == /\ wblk /\ wblk' = FALSE      \* the peer reads the socket again
+            /\ UNCHANGED <<behind, ssess, kpc>> /\ SK2
 SSessClose == /\ ssess = "up" /\ ssess' = "closed" /\ UNCHANGED <<behind, wblk, kpc>> /\ SK2
 SSessLambda == /\ ssess = "closed" /\ ssess' = "down" /\ wblk' = FALSE /\ UNCHANGED <<behind, kpc>> /\ SK2
 STick == Tick /\ UNCHANGED svars /\ NotS
 SendNext == SStart \/ SEnq \/ SShut \/ STimeout \/ SAck \/ STimerFire \/ LoopTake \/ LoopWritten \/ LoopWriteFails
-            \/ LoopExit \/ KStart \/ KSend \/ SBlock \/ SUnblock \/ SSessClose \/ SSessLambda \/ STick
+            \/ LoopExit \/ KStart \/ KSend \/ SUnblock \/ SSessClose \/ SSessLambda \/ STick
 SendFair == WF_vars(SendStep) /\ WF_vars(STimerFire) /\ WF_vars(LoopStep) /\ WF_vars(KSend) /\ WF_vars(SSessLambda)
 \* waitForSendErr returns once the write is done, the session is shut down or the write timeout has passed
 SendReturns == (spc # "idle" /\ (mine \in {"written", "failed"} \/ ssess # "up" \/ now >= CWT)) ~> (spc = "idle")
